@@ -944,10 +944,8 @@ func runC(c CCase, rec *h.Rec) {
 	done := make(chan struct{})
 	go func() { wg.Wait(); close(done) }()
 	close(start)
-	select {
-	case <-done:
-	case <-time.After(10 * time.Second):
-		rec.Failf("concurrent cache operations did not all return within 10s\n%s", h.Stacks()[:2000])
+	if !h.Await(done, 10*time.Second, "github.com/biogo/hts") {
+		rec.Failf("concurrent cache operations did not all return (10s, then a goroutine dump that shows the cache stuck, or 100s)\n%s", h.Stacks()[:2000])
 		return
 	}
 	res := porcupine.CheckOperationsTimeout(cacheModel(c.Kind, c.Cap), hist, 20*time.Second)
@@ -1032,10 +1030,8 @@ func runS(c SCase, rec *h.Rec) {
 	done := make(chan struct{})
 	go func() { wg.Wait(); close(done) }()
 	close(start)
-	select {
-	case <-done:
-	case <-time.After(20 * time.Second):
-		rec.Failf("concurrent StatsRecorder operations did not return within 20s")
+	if !h.Await(done, 20*time.Second, "github.com/biogo/hts") {
+		rec.Failf("concurrent StatsRecorder operations did not return (20s, then a goroutine dump that shows the cache stuck, or 200s)")
 		return
 	}
 	st := sr.Stats()
